@@ -25,6 +25,13 @@ theorem c03_complex_structs_declare (P : Prog) (m : Option String) (p : CProps)
     structOK P (structOfComplex m p) = true :=
   structOfComplex_ok P m p hnone
 
+/-- and for the whole derive input of a document: every struct emitted for its complex types, anonymous-typed
+    elements and simple types (`Ya.progOf`) declares what it uses — hence (`c03_every_prefix_declared`) every value
+    of every such struct serialises to namespace-well-formed XML. `NodeOK`: a type of a schema without target
+    namespace has no member of a namespace (outside the subset) -/
+theorem c03_document_program_declared (d : Doc) (h : ∀ n ∈ d.nodes, NodeOK n) : declared (progOf d) = true :=
+  progOf_declared d h
+
 /-- the text the writer emits *is* the spelling of that derive input: member attribute line … -/
 theorem c03_member_attribute_spelled (m : Option String) (f : Field) :
     (writeField f).head? = some (spellField (fieldOf m f)) :=
